@@ -2,18 +2,18 @@
 PROPERTY = "C20"
 META = {
     "category": "proof",
-    "technique": "contract-based deductive verification of normalize_slice against a spec function defined from slice.indices, and of the per-chunk decomposition _slice_1d for positive steps (loop invariant with ghost `first selected position per chunk`, modulus isolated in lemma_divmod_any), z3; exhaustive bounded native runs of _slice_1d/new_blockdim and Array.__getitem__ against NumPy",
-    "text": "Proof for every slice and every dimension length that normalize_slice selects exactly the same positions in the same direction (spec function `selects` from the model of slice.indices; symbolic-step modulus kept uninterpreted, identical on both sides). _slice_1d (positive step, fragment): for every chunking with non-negative chunk lengths and every normalised slice, a chunk gets an entry exactly when a selected position START + k*step < STOP lies in it; the entry's local start is that chunk's first selected position (congruent to START modulo step, less than one step past the chunk start), its local stop is where the chunk or the slice ends, its step is the slice's; chunks outside the visited range hold no selected position. The negative-step block of _slice_1d, its integer / full-slice fast paths, new_blockdim and list/boolean/None/Ellipsis indexing are bounded: exhaustive over all chunkings (zero-length chunks included) and all slices of small arrays, against NumPy.",
-    "note": "Trusted: VC generator, z3, model of slice.indices (CPython PySlice_AdjustIndices; cross-checked natively on every run); ASSUMED: cached_cumsum returns the running sums of the chunk lengths (stated as a precondition on chunk_boundaries); bisect models. The _slice_1d fragment runs from `step = index.step or 1` to the end of the positive-step loop (the two cosmetic statements after it are dropped). Bounded only: negative-step _slice_1d, new_blockdim, take/shuffle, boolean and vindex indexing, NumPy fancy-index semantics.",
+    "technique": "contract-based deductive verification of normalize_slice against a spec function defined from slice.indices, and of the per-chunk decomposition _slice_1d for positive and for negative steps (loop invariants with a ghost `first / last selected position per chunk`, modulus isolated in lemma_divmod_any / lemma_divmod_negdiv), z3; exhaustive bounded native runs of _slice_1d/new_blockdim and Array.__getitem__ against NumPy",
+    "text": "Proof for every slice and every dimension length that normalize_slice selects exactly the same positions in the same direction (spec function `selects` from the model of slice.indices; symbolic-step modulus kept uninterpreted, identical on both sides). _slice_1d (fragment, one contract per sign of the step; shown for a positive step, mirrored for a negative one — the block repaired by fix 21a8b40, whose pre-fix text fails `chunks-above-the-range-begin-above-START`): for every chunking with non-negative chunk lengths and every normalised slice, a chunk gets an entry exactly when a selected position START + k*step < STOP lies in it; the entry's local start is that chunk's first selected position (congruent to START modulo step, less than one step past the chunk start), its local stop is where the chunk or the slice ends, its step is the slice's; chunks outside the visited range hold no selected position. The integer / full-slice fast paths of _slice_1d, new_blockdim and list/boolean/None/Ellipsis indexing are bounded: exhaustive over all chunkings (zero-length chunks included) and all slices of small arrays, against NumPy.",
+    "note": "Trusted: VC generator, z3, model of slice.indices (CPython PySlice_AdjustIndices; cross-checked natively on every run); ASSUMED: cached_cumsum returns the running sums of the chunk lengths (stated as a precondition on chunk_boundaries); bisect models. The _slice_1d fragment runs from `step = index.step or 1` to the end of the positive-step loop (the two cosmetic statements after it are dropped). Bounded only: new_blockdim, take/shuffle, boolean and vindex indexing, NumPy fancy-index semantics.",
     "design_ref": "DESIGN.md §5.8",
 }
 MODULES = ["contracts.lemmas", "contracts.slicing"]
-ONLY = {"contracts.lemmas": ["lemma_divmod_any"]}
+ONLY = {"contracts.lemmas": ["lemma_divmod_any", "lemma_divmod_negdiv"]}
 LEVEL = "proof"
 EXPLANATION = "kernel proofs of normalize_slice and of the positive-step chunk decomposition + exhaustive bounded native runs against NumPy"
 TRUSTED = ["VC generator /verif/vf", "z3", "model of slice.indices", "NumPy as oracle in bounded runs"]
 ASSUMPTIONS = ["integer dimension lengths (unknown/NaN chunk sizes excluded)"]
-NATIVE_COVERS = {"normalize_slice": ["normalize_slice", "Array.__getitem__"], "_slice_1d[positive step]": ["_slice_1d", "Array.__getitem__"]}
+NATIVE_COVERS = {"normalize_slice": ["normalize_slice", "Array.__getitem__"], "_slice_1d[positive step]": ["_slice_1d", "Array.__getitem__"], "_slice_1d[negative step]": ["_slice_1d", "Array.__getitem__"]}
 
 
 def native(tier, seed):
@@ -49,7 +49,9 @@ def indices_crosscheck():
 
 
 # thorough tier: deliberate edits that must turn an obligation red (applied to a scratch copy, never to /repo)
-MUTATIONS = [('contracts.slicing', '_slice_1d[positive step]', 'dask/array/slicing.py', '                start = (start - length) % step', '                start = (start - length)'),
+MUTATIONS = [('contracts.slicing', '_slice_1d[negative step]', 'dask/array/slicing.py', '        istart = bisect.bisect_right(chunk_boundaries, start)\n        istop = bisect.bisect_right(chunk_boundaries, stop)', '        istart = bisect.bisect_left(chunk_boundaries, start)\n        istop = bisect.bisect_right(chunk_boundaries, stop)'),
+             ('contracts.slicing', '_slice_1d[negative step]', 'dask/array/slicing.py', '                rstart = chunk_start + offset - 1', '                rstart = chunk_start + offset'),
+             ('contracts.slicing', '_slice_1d[positive step]', 'dask/array/slicing.py', '                start = (start - length) % step', '                start = (start - length)'),
              ('contracts.slicing', '_slice_1d[positive step]', 'dask/array/slicing.py', '                d[i] = slice(start, min(stop, length), step)', '                d[i] = slice(start, stop, step)'),
              ('contracts.slicing', '_slice_1d[positive step]', 'dask/array/slicing.py', '        istop = min(istop + 1, len(lengths))', '        istop = min(istop, len(lengths))'),
              ('contracts.slicing', 'normalize_slice', 'dask/array/slicing.py', '            if stop >= dim:\n                stop = None', '            if stop > dim:\n                stop = None\n            if stop == dim:\n                stop = dim - 1')]
